@@ -92,10 +92,15 @@ DyingTarget(e) ==
   ELSE 0
 
 DestroyStep(s) ==
-  LET D == DestroySet(srv, q, s) IN
+  LET D == DestroySet(srv, q, s)
+      \* a query waiting for a TCP connection whose server the trace did not reveal (it was queued on a connection that
+      \* already existed: no event) may be on one of s: every case is explored, one accepted explanation suffices
+      maybe == {id \in DOMAIN q : q[id].st = "tosend" /\ q[id].tcp /\ q[id].qsrv = 0 /\ ~q[id].probe}
+  IN
+  \E extra \in SUBSET maybe :
   /\ srv' = Without(srv, D)
   /\ owedF' = Without(owedF, D) /\ owedO' = Without(owedO, D)
-  /\ q' = DropDoneProbes(AfterDestroy(srv, q, s))
+  /\ q' = DropDoneProbes(AfterDestroyX(srv, q, s, extra))
   /\ UNCHANGED <<cfg, now, fdi, proc, oos, xvars>> /\ Acc
 
 (* a connection is closed: nothing may be left in flight on it; datagrams read from it but not yet processed are discarded *)
